@@ -8,7 +8,7 @@ import ast
 from fractions import Fraction
 
 from ..engine import AnalysisError
-from ..termform import Normalizer, Poly, assigned_exprs, compare, leaves, norm_spec, return_exprs, straight_line_env, subst
+from ..termform import Normalizer, Poly, assigned_exprs, compare, inline_calls, leaves, norm_spec, return_exprs, straight_line_env, subst
 
 
 def get_func(p, cname, fname):
@@ -40,7 +40,7 @@ def cond_text(conds):
     return " and ".join(("" if pol else "not ") + "(" + " ".join(ast.unparse(t).split()) + ")" for t, pol in conds)
 
 
-def extract(f, kind, target=None, when=None, index=None):
+def extract(f, kind, target=None, when=None, index=None, inline=False):
     """normal forms [(cond text, Poly)] of the requested expression(s)"""
     rs = return_exprs(f.node) if kind == "return" else assigned_exprs(f.node, target)
     out = []
@@ -59,8 +59,26 @@ def extract(f, kind, target=None, when=None, index=None):
                 e = e.elts[index]
             else:
                 raise AnalysisError("%s: tuple return expected" % f.qualname)
-        out.append((ct, Normalizer(env).norm(e), leaves(e, env)))
+        e = subst(e, env)
+        if inline and getattr(f, "cls", None) is not None:
+            e = inline_calls(e, _helper_resolver(f))
+        out.append((ct, Normalizer({}).norm(e), leaves(e, {})))
     return out
+
+
+def _helper_resolver(f):
+    """calls self.m(...), cls.m(...), ClassName.m(...) to a method m of f's own class hierarchy (not f itself, not properties)"""
+    names = {"self", "cls"} | {c.name for c in f.cls.mro}
+
+    def resolve(call):
+        fn = call.func
+        if isinstance(fn, ast.Attribute) and isinstance(fn.value, ast.Name) and fn.value.id in names:
+            m = f.cls.find_method(fn.attr)
+            if m is not None and m is not f and m.node is not f.node and len(m.node.body) <= 12:
+                return m.node
+        return None
+
+    return resolve
 
 
 def check(eng, R, rule, cname, fname, kind, spec, target=None, when=None, what="", index=None, not_none=True, rename=None, known=()):
@@ -73,8 +91,16 @@ def check(eng, R, rule, cname, fname, kind, spec, target=None, when=None, what="
         raise AnalysisError("formula rule %s: nothing to extract from %s (%s %s)" % (rule, f.qualname, kind, target))
     sp = norm_spec(spec, rename)
     sp_leaves = leaves(ast.parse(spec, mode="eval").body)
-    for ct, form, lv in forms:
+    inlined = None
+    for i, (ct, form, lv) in enumerate(forms):
         res, detail = compare(form, sp, lv, sp_leaves, known)
+        if res == "unknown":
+            # the formula may have been moved into a helper of the same class: read through it once
+            if inlined is None:
+                inlined = [t for t in extract(f, kind, target, when, index, inline=True) if not (not_none and t[1].canon() == "None")]
+            if len(inlined) == len(forms):
+                ct, form, lv = inlined[i]
+                res, detail = compare(form, sp, lv, sp_leaves, known)
         if res == "unknown":
             raise AnalysisError("formula rule %s at %s: %s (code: %s)" % (rule, f.qualname, detail, form.canon()[:200]))
         R.ob(rule, construct, res == "equal", (f.file, f.lineno),
